@@ -1079,6 +1079,18 @@ class Interp:
                     return s.parts[0]
                 return None
             old, new = count_of(a), count_of(b)
+
+            def bare(s_):
+                return s_.parts[0] if isinstance(s_, StrV) and len(s_.parts) == 1 and isinstance(s_.parts[0], Num) else None
+            if (old is None or new is None) and bare(a) is not None and bare(b) is not None:
+                # the count replaced as bare digits: str.replace rewrites EVERY occurrence, and the digits of the count
+                # also occur inside the index ranges of the header line ("(0,0,0) (7,7,7) ... 8\n" with 7 fields)
+                self.g("G6", False, f"FAB header count replaced without the line-end anchor: replace({a.text()}, {b.text()}) "
+                                    f"rewrites every occurrence of those digits in the header line, the index ranges included "
+                                    f"(the header then names another box)", node)
+                r.ncomp = bare(b)
+                self.emit(st, "hdr-replace", node, old=bare(a), new=bare(b), hdr=hdr)
+                return r
             if old is None or new is None:
                 self.g("G6", None, f"header rewritten by an unrecognised replace({a.text()}, {b.text()})", node)
                 return Top("replace")
